@@ -7,7 +7,7 @@
    (mu only on explicit parts), with the exact implicit solves
        solve_p(rhs, a, _, t)_x = (rhs_x + a*c_p[x]*t) / (1 - a*lam_p[x]). *)
 From Coq Require Import List Arith Bool ZArith QArith Qcanon.
-From PySDC Require Import Model.Sweep.
+From PySDC Require Import Model.Sweep Model.Verlet.
 Import ListNotations.
 Local Open Scope Qc_scope.
 
@@ -139,3 +139,19 @@ Definition run_mass (C : case) : list Qc :=
 
 Definition check_mass_case (ce : case * list Qc) : Z :=
   match first_diff 0 (run_mass (fst ce)) (snd ce) with None => (-1)%Z | Some i => Z.of_nat i end.
+
+(* verlet sweeper on the linear oscillator  x'' = -k x  (scalar), no tau *)
+Record vcase := {
+  v_M : nat; v_dt : Qc; v_t0 : Qc; v_nodes : list Qc;
+  v_Q : list (list Qc); v_QQ : list (list Qc); v_Qx : list (list Qc); v_QT : list (list Qc);
+  v_k : Qc; v_p : list Qc; v_v : list Qc; v_f : list Qc;
+}.
+Definition run_verlet (C : vcase) : list Qc :=
+  let cst := fun (l : list Qc) (m : nat) => memo 1 (fun _ => nthq l m) in
+  let fe := fun (_ : Qc) (pos _vel : nat -> Qc) => memo 1 (fun x => - (v_k C) * pos x) in
+  let '(pn, vn, fn) := verlet_update 0 Qcplus Qcmult Qcminus (v_M C) (v_dt C) (v_t0 C) (nthq (v_nodes C))
+                          (mat (v_Q C)) (mat (v_QQ C)) (mat (v_Qx C)) (mat (v_QT C)) fe
+                          (cst (v_p C)) (cst (v_v C)) (cst (v_f C)) (fun _ => None) (fun _ => None) in
+  map (fun m => pn m 0%nat) (seq 1 (v_M C)) ++ map (fun m => vn m 0%nat) (seq 1 (v_M C)) ++ map (fun m => fn m 0%nat) (seq 1 (v_M C)).
+Definition check_verlet_case (ce : vcase * list Qc) : Z :=
+  match first_diff 0 (run_verlet (fst ce)) (snd ce) with None => (-1)%Z | Some i => Z.of_nat i end.
